@@ -74,7 +74,8 @@ def run_check(prop, tier, seed):
             lines.append('  signature=%s  detail=%s' % (sig, f['detail'][:400].replace('\n', ' | ')))
         rc = 1
     if merged['harness_errors']:
-        lines.append('HARNESS-NONDETERMINISM: %s' % json.dumps(merged['harness_errors'][:3], default=str)[:600])
+        kind = 'HARNESS-ERROR' if any('harness_error' in h for h in merged['harness_errors']) else 'HARNESS-NONDETERMINISM'
+        lines.append('%s: %s' % (kind, json.dumps(merged['harness_errors'][:3], default=str)[:600]))
         rc = 2
     if merged['executions'] == 0:
         lines.append('HARNESS-ERROR: nothing was explored')
